@@ -100,7 +100,7 @@ func BuildServeModel(p *Prog, ro *Roles) *ServeModel {
 // to an integer Service field return (field, 0).
 func counterDelta(ro *Roles, st *ssa.Store) (string, int) {
 	fa, ok := st.Addr.(*ssa.FieldAddr)
-	if !ok || !isNamed(fa.X.Type(), pkgVarlink, "Service") {
+	if !ok || !isServiceState(fa.X.Type()) {
 		return "", 0
 	}
 	b, ok := fa.Type().(*types.Pointer).Elem().Underlying().(*types.Basic)
@@ -303,7 +303,7 @@ func isZeroStoreTo(in ssa.Instruction, fld string) bool {
 		return false
 	}
 	fa, ok := st.Addr.(*ssa.FieldAddr)
-	if !ok || !isNamed(fa.X.Type(), pkgVarlink, "Service") || fieldName(fa.X, fa.Field) != fld {
+	if !ok || !isServiceState(fa.X.Type()) || fieldName(fa.X, fa.Field) != fld {
 		return false
 	}
 	c, ok := st.Val.(*ssa.Const)
@@ -323,7 +323,7 @@ func isStoreToServiceField(in ssa.Instruction, fld string) bool {
 		return false
 	}
 	fa, ok := st.Addr.(*ssa.FieldAddr)
-	return ok && isNamed(fa.X.Type(), pkgVarlink, "Service") && fieldName(fa.X, fa.Field) == fld
+	return ok && isServiceState(fa.X.Type()) && fieldName(fa.X, fa.Field) == fld
 }
 
 func trimRecv(loc string) string {
